@@ -115,6 +115,8 @@ def run(chk):
                 op['worker_init_timeout'] = 60.0
             if op.get('exit') and rng.random() < .3:
                 op['exit_none'] = rng.choice(['all', 'even'])      # a worker_exit that returns None: that is the value it returned
+            if not op.get('exit'):
+                op['want_exit_results'] = True      # … and a call without worker_exit shows no exit results (none of an earlier call's either)
         sc['all_valid'] = False
         sc['pool'].pop('keep_alive', None)
         scs.append(sc)
